@@ -66,9 +66,9 @@ impl ToTokens for FromMetaImpl<'_> {
                     fn from_meta(__item: &::darling::export::syn::Meta) -> ::darling::Result<Self> {
                         ::darling::export::identity::<fn(&::darling::export::syn::Meta) -> ::darling::Result<_>>(#with_callable)(__item)
                             #field_post_transform
-                            .map_err(|e| e.with_span(&__item))
                             .map(#ty_ident)
                             #post_transform
+                            .map_err(|e| e.with_span(&__item))
                     }
 
                     #from_none
